@@ -122,7 +122,7 @@ def gen_history(rng):
     # one history in six is WIDE: a dozen and more siblings with numbered ids ('10' sorts before '9' as text, and
     # get_variants orders by UID as text)
     wide = rng.random() < 0.17
-    pool = ["A", "B", "C", "D", "E", "Server", "optional", "x1", "0"]
+    pool = ["A", "B", "C", "D", "E", "Server", "Server", "optional", "x1", "0", "Q", "Tools"]
     if wide:
         stem = rng.choice(["", "V", "v0"])
         pool = ["%s%d" % (stem, k) for k in range(1, 16)]
@@ -172,9 +172,12 @@ def gen_history(rng):
             bad = rng.choice(["a-b", "", "a b", "a.b", "é", "a_b", "a\n"])
             spec["id"] = bad
             spec["uid"] = bad.replace("-", "") if par is None else "%s-%s" % (par["uid"], bad)
-        elif kind == "valid" and par is None and rng.random() < 0.2:
-            a, b = rng.choice(["Server", "Work", "Q"]), rng.choice(["Tools", "Extras", "Z"])
-            if a + b not in used and (a + "-" + b) not in uids and not any(u.startswith(a + "-" + b + "-") or u == a for u in uids):
+        elif kind == "valid" and par is None and rng.random() < 0.25:
+            # a top-level variant with a dashed UID ('Server-Tools', id 'ServerTools') - also NEXT TO a top-level 'Server'
+            # (whose children's UIDs then interleave with it in UID order)
+            a, b = rng.choice(["Server", "Server", "E", "Q"]), rng.choice(["Tools", "Extras", "Z", "a1"])
+            if a + b not in used and (a + "-" + b) not in uids and not any(u.startswith(a + "-" + b + "-") for u in uids) and \
+                    not (a in uids and any(F.specs[c]["id"] == b for h0 in F.parent if F.specs[h0]["uid"] == a for c in F.children(h0))):
                 spec["id"], spec["uid"] = a + b, a + "-" + b
                 spec["dashed"] = True
         return spec
